@@ -91,6 +91,14 @@ var vd struct {
 	hvrCookie  []byte
 	alerts     int
 	secret     []byte
+	// client side, faulty network (C19_client_hello_retransmission)
+	faulty     bool
+	reads      int
+	cause      int      // why the client is about to send a hello again: 1 timeout, 2 HelloVerifyRequest
+	helloBytes [][]byte // every ClientHello written, marshalled
+	helloCause []int
+	hadCookie  []bool   // whether the client already held a cookie when the cause occurred
+	finalHello []byte   // the ClientHello the client enters into its transcript
 }
 
 func (c *Conn) flush() (int, error)       { return 0, nil }
@@ -103,6 +111,9 @@ func (hs *serverHandshakeState) handshake() error {
 
 func (hs *clientHandshakeState) handshake() error {
 	vd.committed = true
+	if hs.hello != nil {
+		vd.finalHello, _ = hs.hello.marshal()
+	}
 	return errors.New("verif: end of the cookie phase")
 }
 
@@ -122,6 +133,10 @@ func (c *Conn) writeHandshakeRecord(msg handshakeMessage, transcript transcriptH
 		vd.helloSent++
 		vd.lastCH = m
 		vd.owesFlight = false
+		if vd.faulty {
+			vd.helloBytes = append(vd.helloBytes, append([]byte(nil), data...))
+			vd.helloCause = append(vd.helloCause, vd.cause)
+		}
 	default:
 		vd.otherMsgs++
 	}
@@ -131,6 +146,26 @@ func (c *Conn) writeHandshakeRecord(msg handshakeMessage, transcript transcriptH
 // readHandshake: in the server harness the peer sends ClientHellos; in the client harness it follows the
 // honest server's script (HelloVerifyRequest, then ServerHello), answering every flight at once.
 func (c *Conn) readHandshake(transcript transcriptHash) (interface{}, error) {
+	if c.isClient && vd.faulty {
+		// a network that may lose the client's or the server's datagrams: every read either times out or
+		// delivers a HelloVerifyRequest (first or retransmitted) or the ServerHello
+		vd.reads++
+		if vd.reads > verifBound(4, 6) {
+			return nil, errors.New("verif: end of script")
+		}
+		switch verifSplitInt("event", 0, 2) {
+		case 0:
+			vd.timeouts++
+			vd.cause = 1
+			vd.hadCookie = append(vd.hadCookie, vd.lastCH != nil && len(vd.lastCH.cookie) > 0)
+			return nil, verifTimeout{}
+		case 1:
+			vd.cause = 2
+			vd.hadCookie = append(vd.hadCookie, vd.lastCH != nil && len(vd.lastCH.cookie) > 0)
+			return &helloVerifyRequestMsg{serverVersion: VersionTLCP, cookie: verifNondetBytes("hvr.cookie", 32)}, nil
+		}
+		return &serverHelloMsg{vers: VersionTLCP, random: verifNondetBytes("sh.random", 32), cipherSuite: ECC_SM4_GCM_SM3}, nil
+	}
 	if c.isClient {
 		if vd.owesFlight {
 			vd.readWhileOwing = true
@@ -217,5 +252,43 @@ func VerifHarness_C19_client_turns() {
 	if vd.committed {
 		verifReach("committed")
 		verifAssert("C19.turns.secondHelloCarriesCookie", vd.helloSent == 2 && vd.lastCH != nil && len(vd.lastCH.cookie) == 32)
+	}
+}
+
+// C19 — retransmission in the client's hello phase: whenever the client sends its ClientHello again because a
+// read timed out, or because the server's HelloVerifyRequest arrived a second time, the message is byte for
+// byte the one it sent before (same message_seq: the server may already have entered that hello into its
+// transcript); a first HelloVerifyRequest makes it send a NEW hello, next message_seq, carrying the cookie;
+// the hello the client enters into its own transcript is the last one it sent.
+//
+//verif:harness props=C19 paths=20000 reach=committed,retransmitted
+func VerifHarness_C19_client_hello_retransmission() {
+	vd.faulty = true
+	cfg := &Config{Rand: verifRand{}, Time: func() time.Time { return time.Time{} }}
+	c := &Conn{pconn: &verifNullPConn{}, remoteAddr: verifAddr{}, config: cfg, isClient: true}
+	c.retransmitTimer = newRetransmitTimer(time.Second, 60*time.Second, func(d time.Duration) *TimerHandle {
+		return &TimerHandle{Stop: func() bool { return true }}
+	})
+	_ = c.clientHandshake(context.Background())
+	for i := 1; i < len(vd.helloBytes) && i-1 < len(vd.hadCookie); i++ {
+		prev, cur := vd.helloBytes[i-1], vd.helloBytes[i]
+		if len(prev) < 12 || len(cur) < 12 {
+			verifAssert("C19.react.helloIsAHandshakeMessage", false)
+			continue
+		}
+		retransmission := vd.helloCause[i] == 1 || (vd.helloCause[i] == 2 && vd.hadCookie[i-1])
+		if retransmission {
+			verifReach("retransmitted")
+			verifAssert("C19.react.helloRetransmissionByteIdentical", bytes.Equal(prev, cur))
+		} else {
+			seqPrev := int(prev[4])<<8 | int(prev[5])
+			seqCur := int(cur[4])<<8 | int(cur[5])
+			verifAssert("C19.react.newHelloTakesNextMessageSeq", seqCur == seqPrev+1)
+		}
+	}
+	if vd.committed {
+		verifReach("committed")
+		n := len(vd.helloBytes)
+		verifAssert("C19.react.transcriptHelloIsTheOneSent", n >= 1 && bytes.Equal(vd.finalHello, vd.helloBytes[n-1]))
 	}
 }
